@@ -23,30 +23,46 @@ def norm_piece(p):
 
 
 def hex_arg_types(fn):
-    """Types formatted with LowerHex in fn, in call order: Argument::new_lower_hex::<T>."""
+    """Types formatted in fn, in call order: Argument::new_lower_hex::<T> (and new_display::<T> for ids that are written
+    through their own Display impl) -> [(block, type, 'LowerHex'|'Display')]."""
     out = []
-    for b in sorted(fn.calls_re(r"fmt::rt::Argument::<'_>::new_lower_hex$|fmt::rt::Argument::new_lower_hex$", cleanup=False)):
+    for b in sorted(fn.calls_re(r"fmt::rt::Argument::(<'_>::)?new_(lower_hex|display)$", cleanup=False)):
         t = fn.term(b)
         ty = t["targs"][-1] if t.get("targs") else "?"
-        out.append((b, ty))
+        out.append((b, ty.lstrip("&"), "LowerHex" if t["callee"].endswith("lower_hex") else "Display"))
     return out
 
 
 def rule_writers(ctx, facts, rule):
     prov = Prov(facts)
+    DISPLAY = {"fastrace::collector::id::TraceId": "<fastrace::collector::id::TraceId as core::fmt::Display>::fmt",
+               "fastrace::collector::id::SpanId": "<fastrace::collector::id::SpanId as core::fmt::Display>::fmt"}
     specs = [
+        ("impl fmt::Display for TraceId", "fmt", DISPLAY["fastrace::collector::id::TraceId"], [("u128", (".0",))]),
+        ("impl fmt::Display for SpanId", "fmt", DISPLAY["fastrace::collector::id::SpanId"], [("u64", (".0",))]),
         ("impl SpanContext", "encode_w3c_traceparent", ID + "SpanContext::encode_w3c_traceparent",
          [("u128", (".trace_id", ".0")), ("u64", (".span_id", ".0")), ("u8", (".sampled",))]),
-        ("impl fmt::Display for TraceId", "fmt", "<fastrace::collector::id::TraceId as core::fmt::Display>::fmt", [("u128", (".0",))]),
         ("impl serde::Serialize for TraceId", "serialize", "<fastrace::collector::id::TraceId as serde::ser::Serialize>::serialize", [("u128", (".0",))]),
-        ("impl fmt::Display for SpanId", "fmt", "<fastrace::collector::id::SpanId as core::fmt::Display>::fmt", [("u64", (".0",))]),
         ("impl serde::Serialize for SpanId", "serialize", "<fastrace::collector::id::SpanId as serde::ser::Serialize>::serialize", [("u64", (".0",))]),
     ]
     table = {}
+    good_display = set()
     for label, fname, path, args in specs:
         fms = fmt_of(facts, label, fname)
         fn = ctx.need_fn(facts, path, rule)
         if fn is None:
+            continue
+        if not fms and fname == "serialize":
+            # written through the type's own Display: `serializer.serialize_str(&self.to_string())`
+            self_ty = path.split(" as ")[0].lstrip("<")
+            ts = [b for b in fn.calls_re(r"string::ToString>?::to_string$|fmt::Display>?::fmt$", cleanup=False)]
+            whole = bool(ts) and all(any(o.kind == "param" and o.key == 1 and not [q for q in o.path if q != "*"] for o in prov.of_operand(fn, fn.term(b)["args"][0])) for b in ts)
+            ok = whole and DISPLAY.get(self_ty) in good_display
+            if DISPLAY.get(self_ty) in table:
+                table[path] = table[DISPLAY[self_ty]]
+            ctx.check(ok, rule, path, fn.span, "%s writes every id as zero-padded lowercase hex whose width equals the maximum digit count of the "
+                      "formatted integer type (fixed length for all values)" % fname, "through the type's Display impl (self.to_string())",
+                      "no format string of its own and no whole-value to_string() on a checked Display impl", extra="fixed")
             continue
         if len(fms) != 1:
             ctx.fail(rule, path, fn.span, "exactly one format string in %s" % fname, "found %d format_args! invocations" % len(fms), extra="fmt")
@@ -59,22 +75,39 @@ def rule_writers(ctx, facts, rule):
         detail = []
         ok = ok_shape
         total = sum(len(l) for l in lits)
+        eff_phs, eff_tys = [], []
         if ok_shape:
-            for i, ((_, tr, width, zero, argi, prec, alt, sign), (b, ty), (want_ty, want_path)) in enumerate(zip(phs, tys, args)):
+            for i, ((_, tr, width, zero, argi, prec, alt, sign), (b, ty, how), (want_ty, want_path)) in enumerate(zip(phs, tys, args)):
+                src = prov.of_operand(fn, fn.term(b)["args"][0])
+                if tr == "Display" and how == "Display" and ty in DISPLAY and DISPLAY[ty] in good_display and width is None and prec is None:
+                    # `{}` on a TraceId / SpanId: what is written is what that type's (checked) Display writes
+                    dl, dph, dty, dtotal = table[DISPLAY[ty]]
+                    wp = want_path[:-1] if want_path[-1:] == (".0",) else want_path
+                    flows = any(o.kind == "param" and o.key == 1 and tuple([q for q in o.path if q != "*"][-len(wp):]) == wp for o in src) if wp else True
+                    good = dty == [want_ty] and argi == i and not dl
+                    ok = ok and good and flows
+                    total += dtotal
+                    eff_phs.append(dph[0])
+                    eff_tys.append(want_ty)
+                    detail.append("{%s via Display w=%s <- %s}" % (ty.rsplit("::", 1)[1], dtotal, origin_strs(src, 2)))
+                    continue
                 need = BITS.get(ty, 0) // 4
                 good = tr == "LowerHex" and zero and width is not None and width >= need and width == BITS.get(want_ty, 0) // 4 \
                     and ty == want_ty and prec is None and not alt and sign is None and argi == i
-                src = prov.of_operand(fn, fn.term(b)["args"][0])
                 flows = any(o.kind == "param" and o.key == 1 and tuple(o.path[-len(want_path):]) == want_path for o in src)
                 ok = ok and good and flows
                 total += width or 0
+                eff_phs.append((tr, width, zero))
+                eff_tys.append(ty)
                 detail.append("{%s:%s w=%s zero=%s <- %s}" % (ty, tr, width, zero, origin_strs(src, 2)))
-        table[path] = (lits, [(p[1], p[2], p[3]) for p in phs], [t for _, t in tys], total)
+        table[path] = (lits, eff_phs or [(p[1], p[2], p[3]) for p in phs], eff_tys or [t for _, t, _ in tys], total)
+        if ok and fname == "fmt":
+            good_display.add(path)
         ctx.check(ok, rule, path, fms[0]["span"],
                   "%s writes every id as zero-padded lowercase hex whose width equals the maximum digit count of the formatted "
                   "integer type (fixed length for all values)" % fname,
                   "literals %s placeholders %s total length %d" % (lits, detail, total),
-                  "shape/width/type/origin mismatch: literals %s placeholders %s hex argument types %s" % (lits, phs, [t for _, t in tys]),
+                  "shape/width/type/origin mismatch: literals %s placeholders %s hex argument types %s" % (lits, phs, [t for _, t, _ in tys]),
                   extra="fixed")
     enc = table.get(ID + "SpanContext::encode_w3c_traceparent")
     if enc:
@@ -204,6 +237,11 @@ def rule_reader_agrees(ctx, facts, rule, table):
                 continue
             ps = g.calls_re(r"core::num::<impl u\d+>::from_str_radix$", cleanup=False)
             ok = len(ps) == 1 and ("<impl %s>" % ity) in g.term(ps[0])["callee"] and const_value(g, g.term(ps[0])["args"][1]) == 16
+            if not ps and "Deserialize" in p:
+                # read through the type's own FromStr (`s.parse()`), which is checked above
+                via = [b for b in g.calls_re(r"core::str::<impl str>::parse$|str::traits::FromStr>?::from_str$", cleanup=False)
+                       if ("fastrace::collector::id::%s" % ty) in " ".join(g.term(b).get("targs", []) + [g.term(b)["callee"], g.locals[g.term(b)["dest"]["l"]]])]
+                ok = bool(via)
             ctx.check(ok, rule, p, g.span, "%s text is parsed as hexadecimal %s (the type and radix its Display writes)" % (ty, ity), "",
                       "parse calls: %s" % [g.term(b)["callee"] for b in ps], extra="reader")
 
@@ -332,7 +370,7 @@ def rule_error_discipline(ctx, facts, rule):
             ctx.check(bool(ok), rule, p, fn.loc(b),
                       "a failed hexadecimal parse is propagated (ok()? / map / map_err), never unwrapped or defaulted",
                       "consumers %s" % [u.rsplit("::", 1)[1] for u in users], "consumers %s" % users, extra="parse#%d" % n if p.endswith("traceparent") else "parse")
-    ctx.floor(rule, ID.rstrip(":"), n, 7, "from_str_radix call sites in the readers")
+    ctx.floor(rule, ID.rstrip(":"), n, 5, "from_str_radix call sites in the readers (3 in the decoder, FromStr of both ids)")
 
 
 def rule_no_panic_sites(ctx, facts, rule):
